@@ -26,7 +26,7 @@ import vcheck
 LEVEL = "proof"
 
 MODEL_FILES = ["Iface/Reach.v", "Iface/SpvSpec.v", "Iface/SpvIface.v", "Iface/TextBindings.v"]
-PROOF_FILES = ["Iface/Reach.v", "Iface/SpvIfaceProofs.v", "Iface/TextBindings.v", "Iface/SpvGenTies.v"]
+PROOF_FILES = ["Iface/Reach.v", "Iface/ReachGo.v", "Iface/SpvIfaceProofs.v", "Iface/TextBindings.v", "Iface/SpvGenTies.v"]
 
 SPV_VERSIONS_OLD = [0x0100, 0x0101, 0x0102, 0x0103]
 SPV_VERSIONS_NEW = [0x0104, 0x0105, 0x0106]
@@ -673,13 +673,13 @@ def spv_key(mm):
     return "spv:%s%s" % (mm["kind"], (":" + d) if d else "")
 
 
-def run_generated(ctx, tools, exe, st, n_modules):
+def run_generated(ctx, tools, exe, st, n_modules, offset=0):
     rng = ctx.rng.fork("gen")
     mods = []
     jobs = []
     for i in range(n_modules):
-        r = rng.fork("m%d" % i)
-        src, truth = ifacegen.generate(r, i)
+        r = rng.fork("m%d" % (offset + i))
+        src, truth = ifacegen.generate(r, offset + i)
         spv = [{"tag": "old", "version": r.choice(SPV_VERSIONS_OLD), "force_point_size": r.chance(1, 3)},
                {"tag": "new", "version": r.choice(SPV_VERSIONS_NEW), "force_point_size": r.chance(1, 3)}]
         h, m, g = random_hlsl_cfgs(r, truth), random_msl_cfgs(r, truth), random_glsl_cfgs(r, truth)
@@ -687,6 +687,11 @@ def run_generated(ctx, tools, exe, st, n_modules):
         jobs.append({"id": i, "src": src, "want": ["ir", "validate", "spv", "hlsl", "msl", "glsl"],
                      "opts": {"spv": spv, "hlsl": h, "msl": m, "glsl": g}})
     res = nagarun.parallel_batches(tools["ifacedrive"], "compile", jobs, per_job_timeout=30.0, chunk=16)
+    # a timeout on a loaded machine is not a finding: give those jobs one more, generous, try on their own
+    late = [j for j in jobs if (res.get(j["id"]) or {}).get("crash") == "timeout"]
+    if late:
+        res.update(nagarun.run_batch(tools["ifacedrive"], "compile", late, per_job_timeout=240.0, chunk=1))
+        st.add("retried_after_timeout", len(late))
     # ---- model runs (one decode of the IR per module)
     groups, meta = [], []
     for i, md in enumerate(mods):
@@ -760,8 +765,10 @@ def run_generated(ctx, tools, exe, st, n_modules):
         elif r.get("validate"):
             ctx.violation("a valid generated module fails validation: %s" % r["validate"][:2],
                           files={"module.wgsl": md["src"]}, key="invalid:%s" % re.sub(r"\d+", "N", r["validate"][0])[:60])
-    if mods:
-        ctx.sample({"generated_module_head": mods[0]["src"][:400], "entry_points": [e["name"] + ":" + e["stage"] for e in mods[0]["truth"]["eps"]]})
+    for md in (mods[:2] if offset == 0 else []):
+        ctx.sample({"generated_module": md["src"][:700],
+                    "entry_points": [{"name": e["name"], "stage": e["stage"], "uses": e["uses"], "input_shapes": e["input_shapes"]} for e in md["truth"]["eps"]],
+                    "spv": md["spv"], "hlsl": md["hlsl"][1], "msl": md["msl"][3], "glsl": md["glsl"][0]})
     return len(distinct)
 
 
@@ -769,7 +776,7 @@ def run_probes(ctx, tools, exe, st):
     """every spelling of the attribute arguments WGSL allows must bind at the same place"""
     probes = ifacegen.attribute_form_probes()
     jobs = [{"id": i, "src": p[1], "want": ["ir", "spv"], "opts": {"spv": [{"tag": "v", "version": 0x0103}]}} for i, p in enumerate(probes)]
-    res = nagarun.parallel_batches(tools["ifacedrive"], "compile", jobs, per_job_timeout=30.0, chunk=8)
+    res = nagarun.run_batch(tools["ifacedrive"], "compile", jobs, per_job_timeout=30.0, chunk=32)
     vals, meta = [], []
     for i, (tag, src, want) in enumerate(probes):
         r = res.get(i) or {}
@@ -780,6 +787,8 @@ def run_probes(ctx, tools, exe, st):
         vals.append((r["ir"], [{"mode": "spv", "words": (r["spv"]["v"].get("words") or []), "fps": False}]))
         meta.append((tag, src, want))
     outs = multi_runs(exe, vals)
+    if meta:
+        ctx.sample({"attribute_probe": meta[1][0], "source": meta[1][1], "source_says": meta[1][2]})
     for (tag, src, want), o in zip(meta, outs):
         st.add("attribute_probes")
         if not o.get("ok"):
@@ -845,6 +854,149 @@ def run_corpus(ctx, tools, exe, st, limit):
     return len(meta)
 
 
+def toml_configs():
+    """per-shader option files of the snapshot corpus that carry binding maps -> (name, source, hlsl cfg, msl cfg, glsl cfg)"""
+    import tomllib
+    d = os.path.join(vcheck.REPO, "snapshot", "testdata", "in")
+    out = []
+    for f in sorted(os.listdir(d)):
+        if not f.endswith(".toml"):
+            continue
+        try:
+            with open(os.path.join(d, f), "rb") as fh:
+                t = tomllib.load(fh)
+            with open(os.path.join(d, f[:-5] + ".wgsl"), encoding="utf-8") as fh:
+                src = fh.read()
+        except Exception:
+            continue
+        h = m = g = None
+        hs = t.get("hlsl") or {}
+        if isinstance(hs.get("binding_map"), list):
+            bm = []
+            for e in hs["binding_map"]:
+                rb, bt = e.get("resource_binding", {}), e.get("bind_target", {})
+                if "binding_array_size" in bt or "dynamic_storage_buffer_offsets_index" in bt:
+                    bm = None
+                    break
+                bm.append([rb.get("group", 0), rb.get("binding", 0), bt.get("space", 0), bt.get("register", 0)])
+            if bm:
+                h = {"tag": "th", "fake": bool(hs.get("fake_missing_bindings", False)), "binding_map": bm}
+        ms = t.get("msl") or {}
+        if isinstance(ms.get("per_entry_point_map"), dict):
+            per, okm = {}, True
+            for ep, v in ms["per_entry_point_map"].items():
+                resl = []
+                for e in v.get("resources", []):
+                    rb, bt = e.get("resource_binding", {}), e.get("bind_target", {})
+                    sm = bt.get("sampler")
+                    if isinstance(sm, dict) and "Inline" in sm or "external_texture" in bt or "binding_array_size" in bt:
+                        okm = False
+                        break
+                    resl.append([rb.get("group", 0), rb.get("binding", 0), bt.get("buffer", -1), bt.get("texture", -1),
+                                 sm.get("Resource", -1) if isinstance(sm, dict) else -1])
+                per[ep] = {"resources": resl}
+                if "sizes_buffer" in v:
+                    per[ep]["sizes_buffer"] = v["sizes_buffer"]
+            if okm and per:
+                m = {"tag": "tm", "fake": bool(ms.get("fake_missing_bindings", False)), "per_ep": per}
+        gs = t.get("glsl") or {}
+        if isinstance(gs.get("binding_map"), list):
+            bm = [[e.get("resource_binding", {}).get("group", 0), e.get("resource_binding", {}).get("binding", 0), e.get("bind_target", 0)]
+                  for e in gs["binding_map"]]
+            g = {"tag": "tg", "version": [4, 50, 0], "binding_map": bm}
+        if h or m or g:
+            out.append((f[:-5], src, h, m, g))
+    return out
+
+
+def run_corpus_toml(ctx, tools, exe, st):
+    """snapshot shaders with the binding maps of their .toml option files: emitted slots = model"""
+    cfgs = toml_configs()
+    jobs = []
+    for i, (name, src, h, m, g) in enumerate(cfgs):
+        want = ["ir"] + (["hlsl"] if h else []) + (["msl"] if m else []) + (["glsl"] if g else [])
+        jobs.append({"id": i, "src": src, "want": want, "opts": {"hlsl": [h] if h else [], "msl": [m] if m else [], "glsl": [g] if g else []}})
+    res = nagarun.run_batch(tools["ifacedrive"], "compile", jobs, per_job_timeout=60.0, chunk=8)
+    groups, meta = [], []
+    for i, (name, src, h, m, g) in enumerate(cfgs):
+        r = res.get(i) or {}
+        if "ir" not in r:
+            continue
+        groups.append((r["ir"], [dict({"mode": "text"}, **model_text_opts(h or {"fake": True}, m or {"fake": False}, g or {"version": [4, 50, 0]}))]))
+        meta.append(i)
+    outs = multi_runs(exe, groups)
+    for i, o in zip(meta, outs):
+        name, src, h, m, g = cfgs[i]
+        r = res[i]
+        if not o.get("ok"):
+            continue
+
+        def viol(key, what, c, _src=src, _name=name):
+            ctx.violation("corpus %s with its .toml binding map: %s" % (_name, what),
+                          files={"module.wgsl": _src, "options.json": json.dumps(c, indent=1)}, key=key,
+                          broken="correspondence model = emitted code (%s)" % key.split(":")[0])
+        plain = {}
+        for gl in o["globals"]:
+            plain[gl["name"]] = gl
+        if h and "text" in (r.get("hlsl") or {}).get("th", {}):
+            regs, _ = T.hlsl_registers(r["hlsl"]["th"]["text"])
+            mapped = {(x[0], x[1]) for x in h["binding_map"]}
+            for gl in o["globals"]:
+                if gl["group"] is None or gl["kind"] == 2 or gl["hlsl_class"] == "":
+                    continue
+                got = regs.get(gl["name"]) or regs.get(gl["name"] + "_")
+                if got is None:
+                    st.add("toml_hlsl_name_not_found")
+                    continue
+                if (gl["group"], gl["binding"]) not in mapped and not h["fake"]:
+                    viol("hlsl:absent-binding-without-fake:no-error", "HLSL: @group(%d) @binding(%d) absent from the map, no fake bindings, yet compiled" % (gl["group"], gl["binding"]), h)
+                    continue
+                st.add("toml_hlsl_registers_compared")
+                okc = got[0] in ("t", "u") if gl["hlsl_class"] == "h" else got[0] == gl["hlsl_class"]
+                if not okc or got[1:] != (gl["hlsl_register"], gl["hlsl_space"]):
+                    viol("hlsl:register", "HLSL register of %s: text %s, model class %s register %d space %d"
+                         % (gl["name"], got, gl["hlsl_class"], gl["hlsl_register"], gl["hlsl_space"]), h)
+        if m and "text" in (r.get("msl") or {}).get("tm", {}):
+            entries = T.msl_entries(r["msl"]["tm"]["text"])
+            byh = {gl["handle"]: gl for gl in o["globals"]}
+            for ep in o["eps"]:
+                ent = entries.get(ep["name"]) or entries.get(ep["name"] + "_")
+                if ent is None:
+                    st.add("toml_msl_entry_not_found")
+                    continue
+                got = {p: T.msl_resource_slot(a) for _, p, a in ent["params"]}
+                mapped = {(x[0], x[1]) for x in m["per_ep"].get(ep["name"], {}).get("resources", [])}
+                for sl in ep["msl"]:
+                    gl = byh[sl["handle"]]
+                    nm = gl["name"] if gl["name"] in got else gl["name"] + "_"
+                    if nm not in got:
+                        st.add("toml_msl_name_not_found")
+                        continue
+                    if ep["name"] in m["per_ep"] and (gl["group"], gl["binding"]) not in mapped and not m["fake"]:
+                        viol("msl:absent-binding-without-fake:raw-binding-fallback",
+                             "MSL: @group(%d) @binding(%d) absent from the map of %s, no fake bindings, yet compiled" % (gl["group"], gl["binding"], ep["name"]), m)
+                        continue
+                    kind = ("buffer", "texture", "sampler")[gl["kind"]]
+                    want = "fake" if sl["slot"] == "fake" else (kind, sl["slot"])
+                    st.add("toml_msl_slots_compared")
+                    if got[nm] != want:
+                        viol("msl:resource-slots", "MSL slot of %s in %s: text %s, model %s" % (gl["name"], ep["name"], got[nm], want), m)
+        if g and (r.get("glsl") or {}).get("tg"):
+            bykey = {(gl["group"], gl["binding"]): gl for gl in o["globals"] if gl["group"] is not None}
+            for epn, eo in r["glsl"]["tg"].items():
+                if "text" not in eo:
+                    continue
+                for d in T.glsl_decls(eo["text"]):
+                    gl = bykey.get(d["key"])
+                    if gl is None:
+                        continue
+                    st.add("toml_glsl_bindings_compared")
+                    if d["binding"] != gl["glsl_binding"]:
+                        viol("glsl:layout-binding", "GLSL %s: layout(binding) of @group(%d) @binding(%d) is %s, model %s"
+                             % (epn, d["key"][0], d["key"][1], d["binding"], gl["glsl_binding"]), g)
+    return len(meta)
+
+
 def run(ctx):
     tools = vcheck.build_harness(["goextract", "ifacedrive"])
     ok, failed, log = vcheck.proof_step(
@@ -879,9 +1031,12 @@ def run(ctx):
         broken = (broken or "") + " extraction failed: %s" % str(e)[-400:]
     nd = 0
     if exe:
-        nd += run_generated(ctx, tools, exe, st, ctx.scale(140, 6000))
+        total = ctx.scale(100, 3000)
+        for off in range(0, total, 400):           # batches bound the memory held by IR dumps
+            nd += run_generated(ctx, tools, exe, st, min(400, total - off), off)
         run_probes(ctx, tools, exe, st)
-        nd += run_corpus(ctx, tools, exe, st, ctx.scale(60, 1000))
+        nd += run_corpus(ctx, tools, exe, st, ctx.scale(36, 1000))
+        nd += run_corpus_toml(ctx, tools, exe, st)
     ctx.cov["counters"] = st.c
     ctx.cov["evaluations"] = sum(st.c.get(k, 0) for k in ("spv_binaries_checked", "hlsl_registers_compared", "msl_entry_points_compared",
                                                           "glsl_entry_points_compared", "corpus_binaries_checked", "attribute_probes",
